@@ -72,6 +72,9 @@ func (core *JApiCore) next(lexeme scanner.Lexeme) *jerr.JApiError {
 		return nil
 
 	case scanner.ContextExplicitOpening:
+		if core.currentDirective == nil {
+			return core.japiError("there is no directive to open an explicit context for", lexeme.Begin())
+		}
 		core.processContextBegin()
 		return nil
 
